@@ -32,8 +32,22 @@ FILES = {
 }
 
 
-def k_values(tree):
-    return tree["attrs"]["k"]
+PROBES = [["k $a$b$c"], ["%define a zz", "%define B yy", "%define c xx", "k $a$b$c"]]
+
+
+def _same(want, got):
+    from .. import project
+    if got["r"] != want["r"]:
+        return "accept/reject"
+    if want["r"] == "err":
+        if got["kind"].startswith("internal:"):
+            return "internal-error"
+        if want["kind"] == "syntax" and got["kind"] != "syntax":
+            return "error-kind"
+        return None
+    if project.canon_section(want["tree"]) != got["tree"]:
+        return "expanded-values"
+    return None
 
 
 def compare(ws, sch, rec, item, emit):
@@ -52,27 +66,30 @@ def compare(ws, sch, rec, item, emit):
     got3, _ = scenario.run_real(ws, sch, rec, item, loader_factory=factory)
     got4, _ = scenario.run_real(ws, sch, rec, item, loader_factory=factory)
     runs += [("reused ConfigLoader, first", got3), ("reused ConfigLoader, second", got4)]
-    from .. import project
-    for what, got in runs:
-        why = None
-        if got["r"] != want["r"]:
-            why = "accept/reject"
-        elif want["r"] == "err":
-            if got["kind"].startswith("internal:"):
-                why = "internal-error"
-            elif want["kind"] == "syntax" and got["kind"] != "syntax":
-                why = "error-kind"
-        elif project.canon_section(want["tree"]) != got["tree"]:
-            why = "expanded-values"
+    # a different text through the same loader / schema: nothing of the previous load may be visible
+    outs = scenario._CTX["outs"]
+    for pi in (0, 1):
+        probe = scenario._CTX["sc"].items[pi]
+        gp, _ = scenario.run_real(ws, sch, rec, probe, loader_factory=factory)
+        runs.append(("reused ConfigLoader, then probe %d" % pi, gp, outs[pi]["o"]))
+        gq, _ = scenario.run_real(ws, sch, rec, probe)
+        runs.append(("same schema object, then probe %d" % pi, gq, outs[pi]["o"]))
+    for r in runs:
+        what, got = r[0], r[1]
+        w = r[2] if len(r) > 2 else want
+        why = _same(w, got)
         if why:
-            lines = item["files"][item["main"]]
             cls = {"clause": why, "run": what.split(",")[0]}
-            return {"clause": why + " (" + what + ")", "observed": got, "class": cls}
+            return {"clause": why + " (" + what + ")", "observed": got, "expected_for_that_load": w, "class": cls}
     return None
 
 
 def build(maxlen, steps, docs):
     sc = scenario.Scenarios(docs)
+    for p in PROBES:
+        files = dict(FILES)
+        files["d/main.conf"] = list(p)
+        sc.add(0, files, meta={"nontrivial": True})
     for n in range(0, maxlen + 1):
         for combo in itertools.product(steps, repeat=n):
             files = dict(FILES)
